@@ -197,7 +197,8 @@ fn check_program(ctx: &Ctx, p: &Prog, idem: bool, widths_seen: &std::sync::atomi
             }
         }
     }
-    widths_seen.fetch_add(widths.len(), std::sync::atomic::Ordering::Relaxed);
+    ctx.add("widths_enumerated", widths.len() as u64);
+    let _ = widths_seen;
     ctx.nontrivial(&p.src);
     if outs.len() > 1 {
         ctx.outcome("multi-layout-program");
@@ -395,8 +396,7 @@ pub fn run(ctx: &Ctx, replay: Option<&J>, idem: bool) -> i32 {
     }
     ctx.set("programs", json!(progs.len()));
     let widths_seen = std::sync::atomic::AtomicUsize::new(0);
-    par_for(progs.len(), |i| check_program(ctx, &progs[i], idem, &widths_seen));
-    ctx.set("widths_enumerated", json!(widths_seen.load(std::sync::atomic::Ordering::Relaxed)));
+    par_for_ctx(ctx, progs.len(), |i| check_program(ctx, &progs[i], idem, &widths_seen));
 
     // ---- the real CLI: all generated single-line programs in one file per batch; corpus files
     let cli_inputs: Vec<String> = {
